@@ -92,6 +92,8 @@ def run(ctx: core.Ctx):
                 ctx.count(2)
                 if A.shape != (len(ys),) or not np.allclose(A, zs, rtol=0, atol=1e-12, equal_nan=True) or A2.shape != (2, len(ys)) or not np.allclose(A2[1], zs, rtol=0, atol=1e-12, equal_nan=True):
                     ctx.violation(f"{k}.tsukamoto/array", base, zs, A.tolist())
+                from . import forms
+                forms.check(ctx, f"{k}.tsukamoto", base, term.tsukamoto, np.array(ys), np.array(zs), atol=1e-12)
                 for sh in ((1,), (1, 1)):       # batches of length one keep their shape
                     r1 = np.asarray(term.tsukamoto(np.full(sh, ys[len(ys) // 2])), dtype=float)
                     ctx.count()
